@@ -87,6 +87,9 @@ structure Obj where
   modul : Option Nat
   /-- resolved targets of the `L{…}` of the displayed docstring -/
   xrefs : List Nat
+  /-- resolved targets of the `L{…}` in the `@see` / `@note` / `@author` / `@since` fields of the displayed
+  docstring: `FieldHandler` only stores these fields and formats their bodies in `FieldHandler.format()` -/
+  laterefs : List Nat := []
   /-- resolved targets of annotation / signature / decorator / value links (`link_to`) -/
   annrefs : List Nat
   /-- resolved targets of the links made through the object's own `docstring_linker`: default values of
@@ -358,7 +361,7 @@ inductive Row
   | table | initTable | baseTable | detail
   | sidebarTitle | sidebarItem | sidebarInherited
   | heading | classSig | knownSub | overrides | overriddenIn | baseName | baseVia
-  | docXref | annXref | valXref | extraInfo | sumCopy
+  | docXref | fieldXref | annXref | valXref | extraInfo | sumCopy
   | modIndexRoot | modIndex | modIndexSum
   | classIndex | classIndexSum | nameIndex | undoc | indexRoots | allDocs | allDocsSum
   deriving DecidableEq, Repr, Inhabited
@@ -394,6 +397,19 @@ def docLinks (s : Sys) (page : File) (o : Nat) : List Emit :=
     match pageObject s o with
     | none => []
     | some op => (s.ob o).xrefs.map (link .docXref page (some (pageFile s op)))
+
+/-- links of the `@see` / `@note` / `@author` / `@since` fields of the displayed docstring of `o`:
+`format_docstring` calls `fh.format()` *after* its `with source.docstring_linker.switch_context(obj)` blocks
+have exited, and only then are the bodies of these fields turned into HTML (`format_field_list` ->
+`Field.format()`), with the page object the source's linker remembers (`docCtx`): for an inherited docstring
+that is the page of the base class. -/
+def lateLinks (s : Sys) (page : File) (o : Nat) : List Emit :=
+  match (s.ob o).docSource with
+  | none => []
+  | some _ =>
+    match (s.ob o).docCtx with
+    | none => (s.ob o).laterefs.map (link .fieldXref page none)
+    | some sp => (s.ob o).laterefs.map (link .fieldXref page (some (pageFile s sp)))
 
 /-- `_AnnotationLinker.link_to`: `switch_context(self._obj)` -/
 def annLinks (s : Sys) (page : File) (o : Nat) : List Emit :=
@@ -467,7 +483,7 @@ def pageEmits (s : Sys) (p : Nat) : List Emit :=
         ++ overrideInfo s pf p (s.ob p).name
         ++ (s.ob p).ctors.map (link .extraInfo pf (some pf))
       else [])
-  ++ docLinks s pf p
+  ++ docLinks s pf p ++ lateLinks s pf p
   -- main table (+ copied summaries), inherited-member tables, package __init__ table
   ++ (tableChildren s p).flatMap (fun c => entry .table pf (some pf) c (cssPrivate s c) :: sumLinks s .sumCopy pf c)
   ++ (if isCls then
@@ -482,7 +498,7 @@ def pageEmits (s : Sys) (p : Nat) : List Emit :=
   ++ (methods s p).flatMap (fun c =>
         entry .detail pf none c (cssPrivate s c)
         :: ((if isCls then overrideInfo s pf p (s.ob c).name else [])
-            ++ docLinks s pf c ++ annLinks s pf c ++ valLinks s pf c))
+            ++ docLinks s pf c ++ lateLinks s pf c ++ annLinks s pf c ++ valLinks s pf c))
   ++ sidebarEmits s pf p
 
 /-! ### summary pages -/
